@@ -49,3 +49,25 @@ fn d9_zero_ttl_queued_update_readmits_a_removed_entry() {
     cache.sync();
     consistent(&cache, |_| 1);
 }
+
+/// D13, family KF-SYNC-1, variant found with records really queued (after the housekeeper's 500 ms start-up window): an admission
+/// selects its victims BY KEY; the old node of an invalidated key whose removal record is still queued resolves to the
+/// re-inserted, not yet admitted entry of that key and removes it; its own write record then admits nodes and counters for a
+/// key that is no longer in the map.
+#[test]
+fn kf_sync_1_victim_by_key_removes_reinserted_entry() {
+    let cache: Cache<u8, u32> = Cache::new(2);
+    std::thread::sleep(Duration::from_millis(600));
+    cache.insert(1, 0);
+    cache.insert(2, 0);
+    cache.sync();
+    cache.insert(3, 0);
+    cache.invalidate(&1);
+    assert_eq!(cache.get(&3), Some(0));
+    cache.invalidate(&2);
+    cache.insert(2, 7);
+    cache.sync();
+    cache.sync();
+    let n = cache.iter().count() as u64;
+    assert_eq!(cache.entry_count(), n, "entry_count() vs. what the cache holds");
+}
